@@ -386,6 +386,8 @@ class CurveTranslator(tr_rect.Translator):
         W = f"{self.where}: line {line}"
         rest = lambda env2, ind2=ind: self.calls_block(stmts, i + 1, tail, env2, ctx, final, ind2)
         has_rest = i + 1 < len(stmts) or tail is not None or final is not None
+        cont = rest if has_rest else None       # what follows a block-like statement (None: it is the block's value)
+        after = (lambda env2, ind2=ind: rest(env2, ind2)) if has_rest else (lambda env2, ind2=ind: "[]")
         if s[0] == "let":
             _, _, pat, ty, e, mut = s
             if pat[0] != "pbind" or mut:
@@ -414,8 +416,8 @@ class CurveTranslator(tr_rect.Translator):
             _, _, cond, then, els = e
             cnd, ctyp = self.tr_expr(cond, self.nt(env), ctx, "bool", ind + 2)
             self.unify(ctyp, "bool", W)
-            a = self.calls_block(then[2], 0, then[3], env, ctx, rest, ind + 2)
-            b = rest(env, ind + 2) if els is None else self.calls_block(els[2], 0, els[3], env, ctx, rest, ind + 2)
+            a = self.calls_block(then[2], 0, then[3], env, ctx, cont, ind + 2)
+            b = after(env, ind + 2) if els is None else self.calls_block(els[2], 0, els[3], env, ctx, cont, ind + 2)
             return f"if {cnd} then\n{pad}  {a}\n{pad}else\n{pad}  {b}"
         if e[0] == "match":
             _, _, scrut, arms = e
@@ -429,11 +431,13 @@ class CurveTranslator(tr_rect.Translator):
                 env2 = dict(env)
                 env2.update(binds)
                 if body[0] == "block":
-                    btxt = self.calls_block(body[2], 0, body[3], env2, ctx, rest, ind + 4)
+                    btxt = self.calls_block(body[2], 0, body[3], env2, ctx, cont, ind + 4)
                 elif body[0] == "unit":
-                    btxt = rest(env2, ind + 4)
+                    btxt = after(env2, ind + 4)
+                elif cont is None:
+                    btxt = self.calls_expr(body, env2, ctx, ind + 4)
                 else:
-                    btxt = self.calls_block([("expr", body[1], body)], 0, None, env2, ctx, rest, ind + 4)
+                    btxt = self.calls_block([("expr", body[1], body)], 0, None, env2, ctx, cont, ind + 4)
                 out.append(f"{pad}  | {ptxt} =>\n{pad}    {btxt}")
             return "\n".join(out) + ")"
         if e[0] == "for":
@@ -1078,6 +1082,23 @@ SELFTEST_CASES = [
     ("bad_destructure_shadow", "(&mut self) -> Option<i32>", "let Self { r, k } = self; r.find_map(|k| Some(k))", "shadows a name", None),
     ("ok_unwrap_or_else", "(&self, o: Option<i32>) -> i32", "o.unwrap_or_else(|| self.k + 1)", None,
      "(option_unwrap_or_else o (fun (_ : Unit) => (i32_add (It_k self) (1 : Int))))"),
+    ("ok_draw", "<T: DrawTarget>(&self, target: &mut T, color: T::Color) -> Result<(), T::Error>",
+     "if self.k > 0 { return Ok(()); } let w = self.k as u32; target.fill_solid(&Rectangle { top_left: Point { x: self.k, y: 0 }, size: Size { width: w, height: 1 } }, color)",
+     None, "if (i32_gt (It_k self) (0 : Int)) then\n    []\n  else\n    let w := (i32_as_u32 (It_k self));\n    (Target_fill_solid (Rectangle_mk"),
+    ("ok_draw_seq", "<T: DrawTarget>(&self, target: &mut T, color: T::Color) -> Result<(), T::Error>",
+     "self.ok_draw(target, color)?; self.ok_draw(target, color)", None,
+     "((CurveSrc.It_ok_draw self color)) ++\n  ((CurveSrc.It_ok_draw self color))"),
+    ("ok_draw_if_value", "<T: DrawTarget>(&self, target: &mut T, color: T::Color) -> Result<(), T::Error>",
+     "if self.k > 0 { Ok(()) } else { self.ok_draw(target, color) }", None,
+     "if (i32_gt (It_k self) (0 : Int)) then\n    []\n  else\n    (CurveSrc.It_ok_draw self color)"),
+    ("bad_draw_dropped", "<T: DrawTarget>(&self, target: &mut T, color: T::Color) -> Result<(), T::Error>",
+     "self.ok_draw(target, color); Ok(())", "must be followed by `?`", None),
+    ("bad_draw_bound", "<T: DrawTarget>(&self, target: &mut T, color: T::Color) -> Result<(), T::Error>",
+     "let r = self.ok_draw(target, color); r", "unknown name `target`", None),
+    ("bad_draw_clear", "<T: DrawTarget>(&self, target: &mut T, color: T::Color) -> Result<(), T::Error>",
+     "target.clear(color)", "only `fill_solid(&area, color)` is known", None),
+    ("bad_draw_ret", "<T: DrawTarget>(&self, target: &mut T, color: T::Color) -> Result<u32, T::Error>",
+     "Ok(1)", "must return Result<(), _::Error>", None),
     ("bad_find_place", "(&mut self, a: i32) -> Option<i32>", "self.r.find(|x| *x > a)", "only `<range>.clone().find(..)`", None),
     ("bad_try_value", "(&mut self) -> Option<i32>", "let y = self.r.next()? + 1; Some(y)", "`?` is only supported", None),
     ("bad_try_ret", "(&mut self) -> i32", "let y = self.r.next()?; y", "does not return an Option", None),
@@ -1093,11 +1114,14 @@ SELFTEST_CASES = [
 def selftest():
     problems = []
     for (name, sig, body, err, frag) in SELFTEST_CASES:
-        src = SELFTEST_SRC + f"    fn {name}{sig} {{ {body} }}\n}}\n"
+        helper = ("" if name == "ok_draw" else
+                  "    fn ok_draw<T: DrawTarget>(&self, target: &mut T, color: T::Color) -> Result<(), T::Error> { Ok(()) }\n")
+        src = SELFTEST_SRC + helper + f"    fn {name}{sig} {{ {body} }}\n}}\n"
         try:
             with scoped_parser():
                 prog = Program()
                 parse_items(Cursor(tokenize(src, "selftest")), prog, "selftest")
+                classify_generic_fns(prog)
                 tr = CurveTranslator(prog, set(), set())
                 tr.where = "selftest"
                 # `It` is declared on the fly
